@@ -141,6 +141,9 @@ type params struct {
 	connbuf int
 	pickle  bool
 	flush   bool // an operator flushes the route by hand (Route.Flush) at any moment of the traffic
+	// second: the first connection's peer closes after one write; the destination reconnects (30 s) and
+	// the second half of the lines goes to the second, healthy connection
+	second bool
 }
 
 func (p params) String() string {
@@ -148,7 +151,7 @@ func (p params) String() string {
 	for _, l := range p.lines {
 		ls = append(ls, fmt.Sprint(len(l)))
 	}
-	return fmt.Sprintf("lines(len)=%s iobuf=%d connbuf=%d pickle=%v manualflush=%v", strings.Join(ls, ","), p.iobuf, p.connbuf, p.pickle, p.flush)
+	return fmt.Sprintf("lines(len)=%s iobuf=%d connbuf=%d pickle=%v manualflush=%v%s", strings.Join(ls, ","), p.iobuf, p.connbuf, p.pickle, p.flush, map[bool]string{true: " second-connection"}[p.second])
 }
 
 type pathExec struct {
@@ -163,6 +166,9 @@ const destAddr = "10.1.1.1:2003"
 
 func (e *pathExec) Body() {
 	e.net = &destharn.Net{Up: true, Mode: destharn.ReadAll}
+	if e.p.second {
+		e.net.CloseFirstAfterWrites = 1
+	}
 	vrt.SetEnv("net", e.net)
 	d, err := destination.New("r", matcher.Matcher{}, destAddr, "/nospool", false, e.p.pickle, time.Second, 30*time.Second, e.p.connbuf, e.p.iobuf, 10, 1000, 1000, time.Second, 0, 0)
 	if err != nil {
@@ -192,6 +198,10 @@ func (e *pathExec) Body() {
 				vrt.Sleep(1100 * time.Millisecond)
 			}
 		}
+		if e.p.second && i == len(e.p.lines)/2 {
+			vrt.Sleep(65 * time.Second) // two reconnect ticks (30 s): the first may still find the dead connection in place
+			vrt.Quiesce()
+		}
 		rt.Dispatch([]byte(l))
 	}
 	vrt.WaitUntil("manual flush returned", func() bool { return flushed })
@@ -199,6 +209,10 @@ func (e *pathExec) Body() {
 	vrt.Quiesce()
 	c1 := counters(key)
 	if e.viol != "" {
+		return
+	}
+	if e.p.second {
+		e.judgeSecond()
 		return
 	}
 	slow := c1["slow_conn"] - c0["slow_conn"]
@@ -264,6 +278,52 @@ func (e *pathExec) Body() {
 	}
 	if outN != int64(got)+bad {
 		e.viol = fmt.Sprintf("direction=out counted %d lines, the endpoint received %d (bad_pickle %d)", outN, got, bad)
+	}
+}
+
+// judgeSecond: the stream of every connection consists of whole handed-off lines in hand-off order, and no
+// line reaches the endpoint twice (no spool: nothing is replayed); in particular the healthy second
+// connection starts clean, whatever the first one left behind in its buffers.
+func (e *pathExec) judgeSecond() {
+	idx := map[string]int{}
+	for i, l := range e.p.lines {
+		idx[l] = i
+	}
+	seen := map[int]int{}
+	e.out = fmt.Sprintf("connections=%d", len(e.net.Conns))
+	for ci, c := range e.net.Conns {
+		recv := string(c.Recv)
+		if len(recv) > 0 && recv[len(recv)-1] != '\n' {
+			if !c.PeerClosed {
+				e.viol = fmt.Sprintf("connection %d (healthy): the stream ends in the middle of a line: %q", ci+1, c.Recv)
+				return
+			}
+			// the peer closed this connection: what it got of the line being written then does not count
+			recv = recv[:strings.LastIndexByte(recv, '\n')+1]
+		}
+		last := -1
+		for _, l := range strings.Split(strings.TrimSuffix(recv, "\n"), "\n") {
+			if len(recv) == 0 {
+				break
+			}
+			i, ok := idx[l]
+			switch {
+			case !ok:
+				e.viol = fmt.Sprintf("connection %d received %q, which is no handed-off line (stream %q, handed off %q)", ci+1, l, c.Recv, e.p.lines)
+			case i <= last:
+				e.viol = fmt.Sprintf("connection %d received %q out of hand-off order or twice (stream %q)", ci+1, l, c.Recv)
+			case seen[i] > 0:
+				e.viol = fmt.Sprintf("line %q reached the endpoint on connection %d and again on connection %d (spooling is off, nothing is replayed)", l, seen[i], ci+1)
+			}
+			if e.viol != "" {
+				return
+			}
+			last, seen[i] = i, ci+1
+		}
+		e.out += fmt.Sprintf(" c%d=%d", ci+1, last)
+	}
+	if len(e.net.Conns) != 2 {
+		e.viol = fmt.Sprintf("expected two connections (the first one closed by the peer), saw %d", len(e.net.Conns))
 	}
 }
 
@@ -343,7 +403,17 @@ func main() {
 			}
 		}
 	}
+	// a second connection: whatever the first one (closed by its peer after one write) left in its buffers,
+	// the healthy second connection carries whole handed-off lines in order and nothing reaches the endpoint twice
+	for _, iobuf := range []int{1, 8, 16, 64} {
+		for _, connbuf := range []int{1, 2} {
+			p := params{lines: []string{"a.b 1 1", "metric.long.name 12345 1000", "c 2 2", "metric.other.name 54321 2000", "d 3 3"}, iobuf: iobuf, connbuf: connbuf, second: true}
+			scns = append(scns, &vrt.Scenario{Name: "path " + p.String(), Cfg: vrt.Config{MaxSteps: 30000, Horizon: 5 * time.Minute}, Model: vrt.CostDelay, Bound: bound - 1,
+				New: func() vrt.Exec { return &pathExec{p: p} }})
+		}
+	}
 	rep.Assume = []string{
+		"second-connection scenarios: the first connection's peer closes after one write, the destination reconnects at one of the next two 30 s ticks, the rest of the lines goes to the second connection (delay bound one less)",
 		"the TCP endpoint is a model (accepts at once, consumes every byte, never closes); virtual time with maximal progress: a runnable goroutine is never starved across a timer deadline",
 		fmt.Sprintf("delay bound %d; flush period 1 s; the driver chooses (exhaustively) whether to sleep across a flush tick between hand-offs", bound),
 	}
